@@ -298,6 +298,33 @@ def run(ctx):
         else:
             r4.check(ok, "refused-set-shard:" + key, okmsg, failmsg)
 
+    # what a SET established stays until the client says otherwise: the session's overrides are written by the command handler alone (the role and the
+    # shard also by the per-statement inference, whose guards are C05's / C06's), never as a side effect of something the client did not send - a reload,
+    # a settings refresh, a checkout. A writer that is only ever called from an allowed one counts as part of it.
+    ALLOWED_W = {"query_parser_enabled": {"try_execute_command"}, "primary_reads_enabled": {"try_execute_command"},
+                 "active_role": {"try_execute_command", "infer", "infer_for_batch", "set_default_role"},
+                 "active_shard": {"try_execute_command", "handle_inferred_shard", "set_shard"}}
+    QR = "pgcat::query_router::QueryRouter::"
+
+    def within(fn, allowed, depth=0):
+        if fn.replace("::{closure#0}", "").split("::")[-1] in allowed and fn.startswith(QR):
+            return True
+        callers = {c.body.name for c in F.all_calls(fn.replace("::{closure#0}", ""))}
+        return depth < 3 and bool(callers) and all(within(k, allowed, depth + 1) for k in callers)
+    wr = {}
+    for b_, blk, st in F.field_writes(lambda f, b_, st: f in ALLOWED_W):
+        if "::test" in b_.name or b_.name.startswith("bin:"):
+            continue
+        # a field of that name of QueryRouter (not of PoolSettings: `pool_settings.query_parser_enabled` is configuration)
+        pf = proj_fields(st["lhs"])
+        if len(pf) >= 2 and pf[-2] in ("pool_settings", "settings"):
+            continue
+        wr.setdefault(pf[-1], set()).add(b_.name)
+    for fld in sorted(ALLOWED_W):
+        strangers = sorted(n_ for n_ in wr.get(fld, ()) if not within(n_, ALLOWED_W[fld]))
+        r4.check(bool(wr.get(fld)) and not strangers, "established-stays:" + fld, "QueryRouter.%s is written only by %s" % (fld, sorted(x.split("::")[-1] for x in wr.get(fld, ()))),
+                 "QueryRouter.%s is also written by %s: what the client's SET established changes without the client having sent a command, and SHOW reports something the client never set" % (fld, [x.replace(QR, "") for x in strangers]))
+
     # ---------------- R5 totality on query-derived text
     r5 = ctx.rule("C13-R5", "try_execute_command has no panic-capable operation on data derived from the query text other than the discharged ones (numeric arguments of any length get a reply, not a panic)", floor=5)
     if tec:
